@@ -1269,29 +1269,31 @@ impl ProtocolState {
         OutboundAliasResolution{ ..Default::default() }
     }
 
-    fn get_next_ack_timeout(&mut self) -> Option<u64> {
-        if let Some(reverse_record) = self.operation_ack_timeouts.peek() {
-            let record = &reverse_record.0;
-            if record.timeout <= self.current_time {
-                // an operation in the middle of being written to the socket cannot be failed without
-                // truncating its packet on the wire; its timeout is applied once it is fully written
-                if Some(record.id) == self.current_operation {
-                    return None;
-                }
-
-                return Some(record.id);
-            }
-        }
-
-        None
-    }
-
     fn process_ack_timeouts(&mut self) -> GneissResult<()> {
         let mut result = Ok(());
 
-        while let Some(id) = self.get_next_ack_timeout() {
-            self.operation_ack_timeouts.pop();
-            result = fold_mqtt_result(result, self.complete_operation_as_failure(id, GneissError::new_ack_timeout()));
+        // an operation in the middle of being written to the socket cannot be failed without
+        // truncating its packet on the wire; its timeout record is kept and applied once the
+        // packet is fully written.  It must not hold back the expired timeouts of other operations.
+        let mut deferred_record = None;
+
+        while let Some(reverse_record) = self.operation_ack_timeouts.peek() {
+            if reverse_record.0.timeout > self.current_time {
+                break;
+            }
+
+            if let Some(reverse_record) = self.operation_ack_timeouts.pop() {
+                if Some(reverse_record.0.id) == self.current_operation {
+                    deferred_record = Some(reverse_record);
+                    continue;
+                }
+
+                result = fold_mqtt_result(result, self.complete_operation_as_failure(reverse_record.0.id, GneissError::new_ack_timeout()));
+            }
+        }
+
+        if let Some(reverse_record) = deferred_record {
+            self.operation_ack_timeouts.push(reverse_record);
         }
 
         result
